@@ -218,6 +218,30 @@ def run_compression_case(ctx, res, seed, rank=None):
             res.failures.append({'kind': 'latent-coefficients-not-recovered-by-dataset-round-trip',
                                  'input': {**info, 'coefficient': k},
                                  'observed': None if k not in back else np.asarray(back[k]).tolist(), 'expected': v.tolist()})
+    # other coordinates with the SAME number of points: the grid points in reversed order. Interpolating a field to its own
+    # grid points reproduces the grid values, so the field at the reversed coordinates is the reversed field (RBF
+    # interpolation is exact at its nodes up to the solver's accuracy); and converting back recovers the latent coefficients
+    grid_coords = comp.coords
+    rev = grid_coords[::-1].copy()
+    try:
+        m_rev, c_rev = to_model_dataset(dict(lat), vl, del_latent=True, p_coords=rev)
+        for f, fn in enumerate(fields):
+            a, b = np.asarray(m_rev[fn]), np.asarray(model_ds[fn])[..., ::-1]
+            sc = max(1.0, float(np.max(np.abs(b))))
+            if a.shape != b.shape or not np.allclose(a, b, rtol=0, atol=1e-5 * sc):
+                res.failures.append({'kind': 'field-at-permuted-coordinates-is-not-the-permuted-field',
+                                     'input': {**info, 'field': fn},
+                                     'observed': 'max abs diff %.3e' % (float(np.max(np.abs(a - b))) if a.shape == b.shape else np.nan)})
+                break
+        back_rev, _ = to_surrogate_dataset(dict(m_rev), vl, del_fields=True, p_coords=rev)
+        for k, v in lat.items():
+            if k not in back_rev or not np.allclose(back_rev[k], v, rtol=1e-5, atol=1e-5 * max(1.0, float(np.max(np.abs(v))))):
+                res.failures.append({'kind': 'latent-coefficients-not-recovered-at-other-coordinates',
+                                     'input': {**info, 'coefficient': k}})
+                break
+        res.hit('compression-other-coordinates')
+    except Exception as e:  # noqa: BLE001
+        res.failures.append({'kind': 'conversion-at-other-coordinates-raised', 'input': info, 'observed': repr(e)[:300]})
     res.hit('compression-roundtrip' + ('-normalised' if norm else ''))
     res.case(('svd', seed), True, info)
 
